@@ -82,6 +82,16 @@ Definition rescan (x : xstate) : xstate :=
         (x_mp x) (x_boundary x) (x_rx x).
 End Rescan.
 
+(** [zck_clear_error] on the target context between transfers: a recoverable error (every error the
+    download model sets is one: set_error, never set_fatal_error — fatal ones come from failed
+    writes, Io/DlFaults.v) is forgotten; nothing else changes.  While the error is pending
+    zck_get_missing_range returns NULL: the client has no range to set, and every header line and
+    body fragment is refused at the entry checks, which is what the model does for any range. *)
+Definition clear_error (x : xstate) : xstate :=
+  let s := x_dl x in
+  mkX (mkDl false (d_pos s) (d_wic s) (d_tgt s) (d_cur s) (d_acc s) (d_fpos s) (d_file s) (d_tab s))
+      (x_mp x) (x_boundary x) (x_rx x).
+
 Record transfer := mkT {
   t_hdrs : list bytes;     (* response header lines handed to zck_header_cb *)
   t_frags : list bytes }.  (* body fragments handed to zck_write_chunk_cb; may stop early *)
